@@ -205,6 +205,9 @@ def warm(a, da=None):
     da = da or env.import_dimarray()
     try:
         a.labels
+        for d in a.dims:
+            a.axes[d]                                                       # lookup by name
+            getattr(a, d)                                                   # labels through attribute access
         for ax in a.axes:
             ax.is_monotonic()
             v = ax.values
@@ -414,9 +417,13 @@ def expect_array(res, dims, labels, valfun, what, tol=False, sig=None, da=None):
     check(isinstance(res, da.DimArray), "not-a-dimarray", {"what": what, "got": brief(res)}, sig)
     check(tuple(res.dims) == tuple(dims), "dims", {"what": what, "got": list(res.dims), "expected": list(dims)}, sig)
     check(res.values.ndim == len(dims) and len(res.axes) == len(dims), "ndim", {"what": what}, sig)
+    # looking an axis up by name and by position must give the same object, in whatever order the names are asked for
+    for i, d in list(enumerate(dims))[::-1]:
+        check(res.axes[d] is res.axes[i], "axis-by-name-differs-from-axis-by-position", {"what": what, "dim": d, "by_name": res.axes[d].name}, sig)
     for i, d in enumerate(dims):
         check(same_labels(res.axes[i].values, labels[i]), "labels",
               {"what": what, "dim": d, "got": jsonable(res.axes[i].values), "expected": jsonable(labels[i])}, sig)
+        check(res.axes[d] is res.axes[i], "axis-by-name-differs-from-axis-by-position", {"what": what, "dim": d, "by_name": res.axes[d].name}, sig)
     check(tuple(res.values.shape) == tuple(len(l) for l in labels), "shape",
           {"what": what, "got": list(res.values.shape), "expected": [len(l) for l in labels]}, sig)
     import itertools
